@@ -107,6 +107,9 @@ class CompressedExhaustive:
             tree_map = {i: frozenset([i]) for i in hg.nodes}
             # keeps track of scores on the fly
             tracker0 = self.minimize.get_compressed_stats_tracker(hg)
+            if self.chi == "auto":
+                # the tracker has resolved this to a concrete bond dimension
+                self.chi = tracker0.chi
             ssa_path0 = ()
 
             # the actual queue is a heap so need to reference candidates by int
